@@ -77,6 +77,61 @@ def run(ctx):
     if recs:
         r0 = recs[len(recs) // 3]
         res.sample({"step": r0.brief(), "executed": r0.real["log"], "source": progs.render_world(r0.world, "extmod")})
+    # where the process runs: the same unchanged program evaluated from another working directory, in a fresh process and after
+    # os.chdir in the same process, on one local store - nothing is recomputed (tracked variables hold relative and absolute
+    # file-system paths, dates, plain values)
+    import os
+    import shutil
+    import tempfile
+    base = tempfile.mkdtemp(prefix="ddsverif_c02w_")
+    try:
+        mod = "c2w_%d" % os.getpid()
+        src = ("import dds\nimport pathlib\nimport datetime\nfrom ddsverif_rt import log, term\n\n"
+               "RAW = pathlib.Path('data/raw.csv')\nHERE = pathlib.Path('.')\nABS = pathlib.Path('/abs/x.csv')\nDAY = datetime.date(2021, 3, 1)\nN = 3\n\n"
+               "def source():\n    log('source')\n    return term('source', str(RAW), str(HERE))\n\n"
+               "def other():\n    log('other')\n    return term('other', str(ABS), str(DAY), N)\n\n"
+               "def summary():\n    log('summary')\n    return term('summary', dds.keep('/w/source', source), dds.keep('/w/other', other))\n\n"
+               "def f0():\n    log('f0')\n    return dds.keep('/w/summary', summary)\n")
+        os.makedirs(os.path.join(base, "code"))
+        with open(os.path.join(base, "code", mod + ".py"), "w") as fh:
+            fh.write(src)
+        with open(os.path.join(base, "code", "c2e_none.py"), "w") as fh:
+            fh.write("")
+        cwds = [os.path.join(base, "cwd%d" % i) for i in range(3)]
+        for c in cwds:
+            os.makedirs(c)
+        entry = {"kind": "eval", "fun": "f0"}
+        first = None
+        for ci, c in enumerate(cwds):
+            wk = pipeline.WorkerProc("real", cwd=c)
+            try:
+                wk.call(cmd="store_api", internal_dir=os.path.join(base, "si"), data_dir=os.path.join(base, "sd"), cache_objects=None)
+                wk.call(cmd="world", dir=os.path.join(base, "code"), module=mod, extmod="c2e_none")
+                r = wk.call(cmd="run", entry=entry)
+                res.evaluations += 1
+                res.nontrivial("working directory %d" % ci)
+                if first is None:
+                    first = r
+                    continue
+                bad = None
+                ran = [x for x in r["log"] if x in ("source", "other", "summary")]
+                if r["error"] is not None or r["value"] != first["value"]:
+                    bad = "evaluation from another working directory: error %s, value %r vs %r" % (r["error"], r["value"], first["value"])
+                elif ran or r["paths"] != first["paths"]:
+                    bad = "the unchanged program, evaluated by a fresh process started in another directory, re-executes %s (signatures equal: %s)" % (ran, r["paths"] == first["paths"])
+                else:
+                    wk.call(cmd="cwd", dir=cwds[0])
+                    r2 = wk.call(cmd="run", entry=entry)
+                    ran2 = [x for x in r2["log"] if x in ("source", "other", "summary")]
+                    if r2["error"] is not None or ran2 or r2["paths"] != first["paths"]:
+                        bad = "after os.chdir in the same process the unchanged program re-executes %s (error %s)" % (ran2, r2["error"])
+                if bad:
+                    res.violations.append({"what": bad, "input": {"source": src, "working_directories": "three different ones, one local store"}, "kf": None})
+                    break
+            finally:
+                wk.close()
+    finally:
+        shutil.rmtree(base, ignore_errors=True)
     from . import kf_witnesses
     kf_witnesses.run_witness(res, "C02-KF1", kf_witnesses.c02_from_import_object,
                              "a function reading a non-accepted object imported with 'from m import obj' is recomputed when its file is copied to another accepted module")
